@@ -244,7 +244,7 @@ def run(chk):
     # Python-side objects carry the callee's updates — every component gets the returned wire,
     # copyable or not (shared obligations with C22)
     from .C22 import upv_obligations
-    upv_obligations(chk, tag="calls-to-guppy-functions:")
+    upv_obligations(chk, tag="calls-to-guppy-functions:", consts=True)
     struct_attribute_obligations(chk, e, m)
     chk.use_engine(e)
 
